@@ -1099,12 +1099,14 @@ class PDFCIDFont(PDFFont):
                 raise PDFFontError("BaseFont is missing")
             self.basefont = "unknown"
         self.cidsysteminfo = dict_value(spec.get("CIDSystemInfo", {}))
-        cid_registry = resolve1(self.cidsysteminfo.get("Registry", b"unknown")).decode(
-            "latin1",
-        )
-        cid_ordering = resolve1(self.cidsysteminfo.get("Ordering", b"unknown")).decode(
-            "latin1",
-        )
+        registry = resolve1(self.cidsysteminfo.get("Registry", b"unknown"))
+        ordering = resolve1(self.cidsysteminfo.get("Ordering", b"unknown"))
+        if not isinstance(registry, bytes):
+            registry = b"unknown"
+        if not isinstance(ordering, bytes):
+            ordering = b"unknown"
+        cid_registry = registry.decode("latin1")
+        cid_ordering = ordering.decode("latin1")
         self.cidcoding = f"{cid_registry.strip()}-{cid_ordering.strip()}"
         self.cmap: CMapBase = self.get_cmap_from_spec(spec, strict)
 
